@@ -345,7 +345,44 @@ def r8(ctx):
         ctx.check("InFlightRequestRecorder::" + many, okall, "every sent request of the batch is recorded, one by one", got=got, key="each")
 
 
+def r9(ctx):
+    """reporting: an outcome (sent, failed, refused) is never silently dropped from the engine's output"""
+    want = {
+        ("barter::engine::action::generate_algo_orders::GenerateAlgoOrdersOutput", "is_empty"):
+            {"SendCancelsAndOpensOutput::is_empty(self.cancels_and_opens)", "NoneOneOrMany::is_none(self.cancels_refused)",
+             "NoneOneOrMany::is_none(self.opens_refused)"},
+        ("barter::engine::action::send_requests::SendCancelsAndOpensOutput", "is_empty"):
+            {"SendRequestsOutput::is_empty(self.cancels)", "SendRequestsOutput::is_empty(self.opens)"},
+        ("barter::engine::action::send_requests::SendRequestsOutput", "is_empty"):
+            {"NoneOneOrMany::is_none(self.sent)", "NoneOneOrMany::is_none(self.errors)"},
+    }
+    for (adt, fn), w in want.items():
+        b = ctx.fbody(name=fn, self_adt=adt, trait="")
+        got = common.conjunction_of(b)
+        ctx.check("%s::%s" % (mir.short(adt).split("::")[-1], fn), got == w,
+                  "the output counts as empty only if EVERY part is empty (otherwise Engine::process would drop a sent / failed / refused "
+                  "request from its report)", got=sorted(got) if got else None, want=sorted(w), key="all-parts")
+    # Engine::process: the algo output is dropped only when is_empty, otherwise attached (errors or output)
+    P = "barter::engine::Processor"
+    b = ctx.body(ctx.find(name="process", self_adt=ENG, trait=P))
+    calls = b.real_calls()
+    ie = [(bi, t, tm) for bi, t, tm in calls if mir.short(tm[1]) == "GenerateAlgoOrdersOutput::is_empty"]
+    add = [(bi, t, tm) for bi, t, tm in calls if mir.short(tm[1]) in ("ProcessAudit::add_output", "ProcessAudit::add_errors")]
+    ok = len(ie) == 1 and len(add) == 2
+    if ok:
+        for bi, t, tm in add:
+            g = b.guard(bi)
+            ok = ok and all(any(a[0] == "bool" and a[1] == ie[0][2] and a[2] is False for a in conj) for conj in g)
+        ao = [tm for bi, t, tm in add if mir.short(tm[1]) == "ProcessAudit::add_output"]
+        ok = ok and len(ao) == 1 and any(s_[0] == "call" and s_[1].endswith("GenerateAlgoOrders::generate_algo_orders") or
+                                         (s_[0] == "call" and mir.short(s_[1]) == "Engine::generate_algo_orders") for s_ in mir.subterms(ao[0][2][1]))
+    ctx.check("Engine::process:algo-output", ok,
+              "a non-empty algo output is always attached to the audit (as output, or as errors when unrecoverable)",
+              got=[render(x[2])[:100] for x in add], key="attached")
+
+
 RULES = [
+    ("R9", "reporting: is_empty covers every part of the output; non-empty outputs are attached to the audit", r9),
     ("R8", "in-flight recorders: a sent open is tracked OpenInFlight, a sent cancel marks the tracked order CancelInFlight", r8),
     ("R1", "send_request: Ok iff channel accepted; exactly one send of the request on its exchange's link; error classes", r1),
     ("R2", "send_requests: per-request partition into sent / (request, error)", r2),
